@@ -78,7 +78,8 @@ C06_ConfBfswCrash == (Has("bfsw") /\ RefOk /\ BfswPred(C.c) # "unspecified") =>
   /\ BfswPred(C.c) = "sound" => R("bfsw").out # "error"
 \* the phase-shift model predicts the angle the sweep reports, bus by bus
 C06_ConfBfswAngle == (Has("bfsw") /\ RefOk /\ R("bfsw").out = "ok") =>
-  \A b \in Buses(C.c) : AngleClose(R("bfsw").va[b + 1] - 150000000 * BfswAngleErr(C.c, C.cva, b), R(RefSolver).va[b + 1])
+  LET e == BfswAngleErrs(C.c, C.cva) IN
+  \A b \in Buses(C.c) : AngleClose(R("bfsw").va[b + 1] - 150000000 * e[b], R(RefSolver).va[b + 1])
 \* the generator keeps the classes well conditioned
 C06_ConfWellConditioned == RefOk => \A k \in 1..Len(R(RefSolver).vm) :
   LET v == R(RefSolver).vm[k] IN IsNum(v) /\ v > 850000 /\ v < 1150000
